@@ -13,13 +13,13 @@ import (
 // Foreign is a WordprocessingML package written by the harness' own writer
 // ("produced by another application").
 type Foreign struct {
-	Order    []string
-	Parts    map[string][]byte
-	MainText string   // concatenation of every w:t of the main part in document order
-	Features []string // what was put in (for samples / keys)
-	RelIDs   []string // relationship ids used in word/_rels/document.xml.rels
-	Media    []string
-	StyleIDs []string // style ids defined in styles.xml
+	Order        []string
+	Parts        map[string][]byte
+	MainText     string   // concatenation of every w:t of the main part in document order
+	Features     []string // what was put in (for samples / keys)
+	RelIDs       []string // relationship ids used in word/_rels/document.xml.rels
+	Media        []string
+	StyleIDs     []string // style ids defined in styles.xml
 	HeadingStyle string
 }
 
@@ -81,10 +81,10 @@ const (
 // MinimalPackage returns a tiny valid package; mut may edit the parts (as strings) before zipping.
 func MinimalPackage(mut func(m map[string]string)) []byte {
 	m := map[string]string{
-		"[Content_Types].xml": `<?xml version="1.0" encoding="UTF-8" standalone="yes"?><Types xmlns="http://schemas.openxmlformats.org/package/2006/content-types"><Default Extension="rels" ContentType="application/vnd.openxmlformats-package.relationships+xml"/><Default Extension="xml" ContentType="application/xml"/><Override PartName="/word/document.xml" ContentType="application/vnd.openxmlformats-officedocument.wordprocessingml.document.main+xml"/><Override PartName="/word/styles.xml" ContentType="application/vnd.openxmlformats-officedocument.wordprocessingml.styles+xml"/></Types>`,
-		"_rels/.rels":         `<?xml version="1.0" encoding="UTF-8" standalone="yes"?><Relationships xmlns="` + relNS + `"><Relationship Id="rId1" Type="` + relT + `officeDocument" Target="word/document.xml"/></Relationships>`,
-		"word/document.xml":   `<?xml version="1.0" encoding="UTF-8" standalone="yes"?><w:document xmlns:w="` + nsW + `"><w:body><w:p><w:r><w:t>hello</w:t></w:r></w:p></w:body></w:document>`,
-		"word/styles.xml":     `<?xml version="1.0" encoding="UTF-8" standalone="yes"?><w:styles xmlns:w="` + nsW + `"><w:style w:type="paragraph" w:styleId="Normal"><w:name w:val="Normal"/></w:style></w:styles>`,
+		"[Content_Types].xml":          `<?xml version="1.0" encoding="UTF-8" standalone="yes"?><Types xmlns="http://schemas.openxmlformats.org/package/2006/content-types"><Default Extension="rels" ContentType="application/vnd.openxmlformats-package.relationships+xml"/><Default Extension="xml" ContentType="application/xml"/><Override PartName="/word/document.xml" ContentType="application/vnd.openxmlformats-officedocument.wordprocessingml.document.main+xml"/><Override PartName="/word/styles.xml" ContentType="application/vnd.openxmlformats-officedocument.wordprocessingml.styles+xml"/></Types>`,
+		"_rels/.rels":                  `<?xml version="1.0" encoding="UTF-8" standalone="yes"?><Relationships xmlns="` + relNS + `"><Relationship Id="rId1" Type="` + relT + `officeDocument" Target="word/document.xml"/></Relationships>`,
+		"word/document.xml":            `<?xml version="1.0" encoding="UTF-8" standalone="yes"?><w:document xmlns:w="` + nsW + `"><w:body><w:p><w:r><w:t>hello</w:t></w:r></w:p></w:body></w:document>`,
+		"word/styles.xml":              `<?xml version="1.0" encoding="UTF-8" standalone="yes"?><w:styles xmlns:w="` + nsW + `"><w:style w:type="paragraph" w:styleId="Normal"><w:name w:val="Normal"/></w:style></w:styles>`,
 		"word/_rels/document.xml.rels": `<?xml version="1.0" encoding="UTF-8" standalone="yes"?><Relationships xmlns="` + relNS + `"><Relationship Id="rId1" Type="` + relT + `styles" Target="styles.xml"/></Relationships>`,
 	}
 	if mut != nil {
